@@ -159,24 +159,35 @@ func rulePrefixCodedAgreement(r *Report, rule string) {
 		// comparison operand, an expanded helper); local variable names are normalised away, conversions dropped
 		out := ""
 		info := fi.Pkg.TypesInfo
-		ast.Inspect(fi.Decl.Body, func(x ast.Node) bool {
-			add, ok := x.(*ast.BinaryExpr)
-			if !ok || add.Op != token.ADD {
-				return true
+		// the function itself and the same-package helpers it calls (the formula may live in one)
+		bodies := []ast.Node{fi.Decl.Body}
+		for _, c := range callsDeep(fi.Decl.Body) {
+			if f := callee(info, c); f != nil && f.Pkg() == fi.Pkg.Types {
+				if h := p.funcs[funcName(f)]; h != nil && h.Decl.Body != nil && h != fi {
+					bodies = append(bodies, h.Decl.Body)
+				}
 			}
-			q, ok := ast.Unparen(add.X).(*ast.BinaryExpr)
-			if !ok || q.Op != token.QUO {
+		}
+		for _, body := range bodies {
+			ast.Inspect(body, func(x ast.Node) bool {
+				add, ok := x.(*ast.BinaryExpr)
+				if !ok || add.Op != token.ADD {
+					return true
+				}
+				q, ok := ast.Unparen(add.X).(*ast.BinaryExpr)
+				if !ok || q.Op != token.QUO {
+					return true
+				}
+				if k, isC := intConst(info, q.Y); !isC || k != 7 {
+					return true
+				}
+				if _, isC := intConst(info, add.Y); !isC {
+					return true
+				}
+				out = normaliseLocals(info, add)
 				return true
-			}
-			if k, isC := intConst(info, q.Y); !isC || k != 7 {
-				return true
-			}
-			if _, isC := intConst(info, add.Y); !isC {
-				return true
-			}
-			out = normaliseLocals(info, add)
-			return true
-		})
+			})
+		}
 		return out
 	}
 	r.Ob(rule, "encoder~validator/term-length-formula", val.Decl.Pos(), form(enc) != "" && form(enc) == form(val), fmt.Sprintf("the number of data bytes for a shift is computed by the same formula when writing (%s) and validating (%s)", form(enc), form(val)))
